@@ -15,6 +15,23 @@ use std::path::Path;
 use maplit::btreeset;
 use structopt::StructOpt;
 
+/// Check if two paths name the same file: the same place, or another name (hard link) of the file
+fn is_same_file(first: &Path, second: &Path) -> bool {
+    if let (Ok(first), Ok(second)) = (first.canonicalize(), second.canonicalize()) {
+        if first == second {
+            return true;
+        }
+    }
+    #[cfg(unix)]
+    {
+        use std::os::unix::fs::MetadataExt;
+        if let (Ok(first), Ok(second)) = (std::fs::metadata(first), std::fs::metadata(second)) {
+            return first.dev() == second.dev() && first.ino() == second.ino();
+        }
+    }
+    false
+}
+
 fn main() {
     let opt = Opt::from_args();
 
@@ -83,7 +100,10 @@ fn main() {
                     source_parent
                 };
 
-                if code_path.is_some() && code_path == outpath.canonicalize().ok() {
+                if code_path
+                    .as_ref()
+                    .map_or(false, |code| is_same_file(code, &outpath))
+                {
                     failed = true;
                     println!(
                         "Failed to write eeprom hex file {}, same file is used for code",
